@@ -227,7 +227,7 @@ def r4_known_ids(ctx: Ctx, rep: Report):
         idp, vp = fn.params[1], fn.params[2]
         bad, nknown = None, 0
         for p in enumerate_paths(prog, fn, no_raise):
-            if not any(_lookup_truth(fn, ev) is True for ev in p.events if ev.kind == "test"):
+            if not any(_lookup_truth(p.fn_at(i_, fn), ev) is True for i_, ev in enumerate(p.events) if ev.kind == "test"):
                 continue
             nknown += 1
             rp = Replay(prog, fn, p)
@@ -341,6 +341,7 @@ def _timestamp(ctx, rep, ci, key, where):
     dec = ctx.memo("decoders", lambda: Decoders(ctx.prog, ctx.res))
     fields = ("year", "month", "day", "hour", "minute", "second")
     by_byte: Dict[int, Tuple[str, int]] = {}
+    signed_fields: List[str] = []
     for c in dec.helper_cases(rd):
         v = c.value
         if c.outcome != "return" or v is None or v[0] != "obj" or v[1:3] != ("call", "datetime") or len(v[3]) != 6:
@@ -349,6 +350,8 @@ def _timestamp(ctx, rep, ci, key, where):
             l = lin_of(k[1]) if k[0] == "num" else None
             if l is not None and l[0][0] == "read" and l[0][3] == 1 and l[1] == 1:
                 by_byte[l[0][2]] = (f, int(l[2]))
+                if len(l[0]) > 4 and l[0][4]:
+                    signed_fields.append(f)
     order = [by_byte[i][0] for i in sorted(by_byte)] if sorted(by_byte) == list(range(len(by_byte))) else []
     year_off = next((o for f, o in by_byte.values() if f == "year"), None)
     if any(o != 0 for f, o in by_byte.values() if f != "year"):
@@ -371,6 +374,9 @@ def _timestamp(ctx, rep, ci, key, where):
     ok = order == enc_order and len(order) == 6 and year_off == enc_off and year_off is not None
     rep.check(ok, "C17.R1", key, where, "Timestamp encodes %s (year - %s) in read_datetime's order" % (enc_order, enc_off),
               bad="Timestamp: encode_datetime writes %s (year offset %s) but read_datetime reads %s (year offset %s)" % (enc_order, enc_off, order, year_off))
+    # bytes([...]) writes each field as an unsigned byte (0..255): the decoder has to read them unsigned as well
+    rep.check(not signed_fields, "C17.R1", key + ":unsigned", where, "read_datetime reads the six bytes unsigned, as bytes([...]) writes them",
+              bad="Timestamp: read_datetime reads %s as signed byte(s) while encode_datetime writes unsigned bytes: a year of 2128 or later (byte >= 0x80) reads back 256 years early" % ", ".join(sorted(set(signed_fields))))
 
 
 def _group_codec(ctx, rep, ci, row, key, where):
@@ -551,6 +557,8 @@ def r2(ctx: Ctx, rep: Report):
                         elif entails_ge(r.facts, ln - Lin.of_const(3)):
                             small = False
             size1 = next((ev.data for ev in p.events if ev.kind == "test" and norm(ev.node) == "%s.size_ == 1" % sp), None)
+            if size1 is None:       # the same decision written the other way round
+                size1 = next((not ev.data for ev in p.events if ev.kind == "test" and norm(ev.node) in ("%s.size_ != 1" % sp, "not %s.size_ == 1" % sp)), None)
             why = None
             if len(writes) != 1:
                 why = "%d write commands on one path" % len(writes)
